@@ -37,8 +37,8 @@ def configs(tier):
         plan = [(2, 'yearend'), (3, 'yearend'), (4, 'yearend'), (4, 'monthend'), (3, 'midmonth')]
         scaled = [(3, 'yearend')]
     else:
-        plan = [(n, s) for n in (2, 3, 4, 5) for s in STARTS] + [(6, 'yearend')]
-        scaled = [(3, 'yearend'), (4, 'monthend'), (5, 'yearend')]
+        plan = [(n, s) for n in (2, 3, 4) for s in STARTS] + [(5, 'yearend'), (5, 'midmonth')]
+        scaled = [(3, 'yearend'), (4, 'monthend'), (4, 'yearend')]
     for n, s in plan:
         out.append(dict(name='curve_n%d_%s' % (n, s), n=n, start=STARTS[s], scaled=False, weight=4 ** n, chunk=10, chunk_s=40,
                         bound='%d symbolic equity points on business days from %s' % (n, STARTS[s]),
@@ -195,6 +195,9 @@ class Stats(Harness):
             d = o[src]
             for t in range(n):
                 obl.append(('%s:return[%d]' % (src, t), L.ne(d['returns'][t], S['r'][t])))
+                if t >= 1:
+                    # one compounding step on the reported series (syntactic), so that cum[t] = e_t/e_0 follows from cum[t-1] and r_t
+                    obl.append(('%s:cum_return_step[%d]' % (src, t), L.ne(d['cum'][t], L.num(d['cum'][t - 1]) * (1 + L.num(d['returns'][t])))))
                 obl.append(('%s:cum_return[%d]' % (src, t), L.ne(d['cum'][t], S['c'][t])))
                 obl.append(('%s:drawdown[%d]' % (src, t), L.ne(d['dd'][t], S['dd'][t])))
             # maximum drawdown / duration are the maximum and the longest under-water run "of that series": stated over the
@@ -226,8 +229,13 @@ class Stats(Harness):
         for kind, reported in list(o['agg'].items()) + [('monthly', j['monthly']), ('yearly', j['yearly'])]:
             G = self._groups(kind)
             labels = [tuple(int(x) for x in k) for k, _ in reported]
-            obl.append(('agg:%s:labels_are_the_calendar_periods' % kind, L.bool(labels != sorted(G.keys()))))
             if labels != sorted(G.keys()):
+                # another labelling / grouping of the periods: the statement only requires that the figures compound to the
+                # total return of the daily series
+                total = 1
+                for (k, v) in reported:
+                    total = total * (1 + L.num(v))
+                obl.append(('agg:%s:compounds_to_total_return' % kind, L.ne(total, S['c'][-1])))
                 continue
             # each period's figure equals the compounded growth over its days, e_last(period)/e_last(previous period) - 1;
             # the periods partition the dates (checked above), so the figures telescope to the total return e_{n-1}/e_0
